@@ -111,6 +111,75 @@ def _events_agree(ctx, case, p, times, amps, duration, runs, sig):
     return True
 
 
+def event_loop_correspondence(ctx, lif, rng):
+    """Tie B for the event loop: the hand-written Lean model of `run_event_based_simulation` (around the generated
+    Float kernels) is run by the driver on the same schedule and must return bit-identical spike times, record
+    times, recorded voltages and final voltage.  The generator crafts the coincidences the loop's priority rules
+    are about: an input change exactly on an (accumulated) record time, duplicate change times, an initial voltage
+    exactly on the threshold (a spike at the very instant of an input change), `duration` exactly on an event time,
+    zero and negative durations, no recording at all (record_dt = inf)."""
+    cases, obs, reqs = [], [], []
+    for _ in range(ctx.n(90)):
+        p = params(rng, lif)
+        p.tau = 10 ** rng.uniform(-3, -1.5)
+        dt = rng.choice([0.001, 0.004, 0.0125, 0.03, rng.uniform(0.002, 0.05)])
+        acc, x = [], dt
+        while x <= 0.13 and len(acc) < 400:
+            acc.append(x); x = x + dt          # the record times exactly as the loop accumulates them
+        k = rng.randrange(1, 7)
+        times = sorted(rng.uniform(0, 0.08) for _ in range(k))
+        fam = []
+        if rng.random() < 0.5:
+            times[rng.randrange(k)] = rng.choice(acc); times.sort(); fam.append("input_on_record")
+        if rng.random() < 0.4:
+            times[0] = 0.0; fam.append("t0_zero")
+        if k >= 2 and rng.random() < 0.35:
+            j = rng.randrange(1, k); times[j] = times[j - 1]; fam.append("duplicate_time")
+        amps = [rng.uniform(-1, 4) for _ in range(k)] if rng.random() < 0.6 else [rng.uniform(-4, 4) for _ in range(k)]
+        v0 = 0.0
+        if rng.random() < 0.3:
+            v0 = p.v_threshold; fam.append("v0_on_threshold")
+        elif rng.random() < 0.2:
+            v0 = p.v_threshold - rng.uniform(0.01, 2.0); fam.append("v0_other")
+        u = rng.random()
+        if u < 0.25:
+            duration = rng.choice(acc); fam.append("duration_on_record")
+        elif u < 0.45:
+            duration = rng.choice(times); fam.append("duration_on_input")
+        elif u < 0.5:
+            duration = rng.choice([0.0, -0.01]); fam.append("duration_nonpositive")
+        else:
+            duration = rng.choice([0.05, 0.1, rng.uniform(0.02, 0.12)])
+        rdt = None if rng.random() < 0.15 else dt
+        if rdt is None:
+            fam.append("no_recording")
+        n = lif.ExactLIFNeuron(lif.LIFParams(p.tau, p.r, p.v_leak, p.v_threshold))
+        n.state.v = v0
+        rec = lif.run_event_based_simulation(n, lif.StepCurrent(list(times), list(amps)), math.inf if rdt is None else rdt,
+                                             duration)
+        req = {"op": "lif_events", "tau": fhex(p.tau), "r": fhex(p.r), "v_leak": fhex(p.v_leak),
+               "v_threshold": fhex(p.v_threshold), "v0": fhex(v0), "duration": fhex(duration),
+               "record_dt": None if rdt is None else fhex(rdt), "times": [fhex(t) for t in times],
+               "amps": [fhex(a) for a in amps], "fuel": 400000}
+        case = {"op": "lif_event_loop", "tau": p.tau, "r": p.r, "v_leak": p.v_leak, "v_threshold": p.v_threshold,
+                "v0": v0, "times": times, "amps": amps, "duration": duration, "record_dt": rdt, "request": req}
+        ctx.case(case); ctx.count("event_loop_model_runs")
+        for f in fam:
+            ctx.count("event_loop_" + f)
+        ctx.count("event_loop_spikes", len(rec.spikes)); ctx.count("event_loop_records", len(rec.times))
+        # simultaneous events actually met (same instant handled by two different branches)
+        if set(rec.spikes) & set(rec.times):
+            ctx.count("event_loop_spike_and_record_same_instant")
+        if set(rec.spikes) & set(times):
+            ctx.count("event_loop_spike_and_input_same_instant")
+        if set(rec.times) & set(times):
+            ctx.count("event_loop_record_and_input_same_instant")
+        cases.append(case); reqs.append(req)
+        obs.append({"spikes": [fhex(t) for t in rec.spikes], "times": [fhex(t) for t in rec.times],
+                    "voltages": [fhex(v) for v in rec.voltages], "v": fhex(n.state.v)})
+    ctx.compare("event_loop", cases, obs, reqs)
+
+
 def fhex(x):
     import struct
     return struct.pack("<d", float(x)).hex()
@@ -251,6 +320,8 @@ def run(ctx):
                         ctx.violate(case, "recorded voltage depends on the recording interval",
                                     {**sig, "law": "record-dt-voltage"}, observed=[ref[key], v, t])
                         break
+    # ---- event loop: model/implementation correspondence (bitwise) ------------------------------------
+    event_loop_correspondence(ctx, lif, rng)
     # ---- CubaLIF reference: exactly the forward-Euler update ------------------------------------
     import nir
     cuba = load_cuba()
